@@ -198,6 +198,10 @@ func (c *Converter) ExpandContainerValue(ctx context.Context, p *sdcpb.Path, jv 
 			},
 		}, nil
 	case map[string]any:
+		// an empty object on a presence container configures the container itself
+		if len(jv) == 0 && cs.Container.GetIsPresence() {
+			return []*sdcpb.Update{{Path: p, Value: &sdcpb.TypedValue{Value: &sdcpb.TypedValue_EmptyVal{}}}}, nil
+		}
 		upds := make([]*sdcpb.Update, 0)
 		// make sure all keys are present
 		// and append them to path
